@@ -49,5 +49,64 @@ theorem Memo.transparent (key : α → κ) (f : α → ν) (hk : KeySufficient k
     simp only [Memo.runOps, List.map_cons]
     exact ⟨by rw [hv, h1], h2⟩
 
+/-- a history of two calls whose arguments share a key returns the FIRST value twice: the stale value of the memo pattern -/
+theorem Memo.two_calls_same_key (key : α → κ) (f : α → ν) (a b : α) (h : key a = key b) :
+    (Memo.runOps key f [] [a, b]).2 = [f a, f a] := by
+  simp [Memo.runOps, Memo.call, Memo.lookup, h]
+
+/-- converse of `Memo.transparent`: if every history (it suffices: every history of two calls) returns the function's own values,
+    the key determines the value.  So an insufficient key is always exposed by two otherwise arbitrary calls that agree on the key. -/
+theorem Memo.key_sufficient_of_transparent (key : α → κ) (f : α → ν)
+    (h : ∀ a b : α, (Memo.runOps key f [] [a, b]).2 = [a, b].map f) : KeySufficient key f := by
+  intro a b hk
+  have h2 := h a b
+  rw [Memo.two_calls_same_key key f a b hk] at h2
+  simpa using h2
+
+/-! ### the same on a set of admissible arguments (arguments of the right arity for the table) -/
+
+/-- key sufficiency among the arguments satisfying `P` -/
+def KeySufficientOn (P : α → Prop) (key : α → κ) (f : α → ν) : Prop := ∀ a b, P a → P b → key a = key b → f a = f b
+
+def Memo.SoundOn (P : α → Prop) (key : α → κ) (f : α → ν) (c : Memo κ ν) : Prop :=
+  ∀ p ∈ c, ∃ a, P a ∧ key a = p.1 ∧ f a = p.2
+
+theorem Memo.call_spec_on (P : α → Prop) (key : α → κ) (f : α → ν) (hk : KeySufficientOn P key f) (c : Memo κ ν)
+    (h : Memo.SoundOn P key f c) (a : α) (ha : P a) :
+    (Memo.call key f c a).2 = f a ∧ Memo.SoundOn P key f (Memo.call key f c a).1 := by
+  unfold Memo.call
+  cases hl : c.lookup (key a) with
+  | some v =>
+    refine ⟨?_, h⟩
+    unfold Memo.lookup at hl
+    cases hfind : c.find? (fun p => p.1 = key a) with
+    | none => simp [hfind] at hl
+    | some p =>
+      simp [hfind] at hl
+      have hmem := List.mem_of_find?_eq_some hfind
+      have hkey : p.1 = key a := by simpa using List.find?_some hfind
+      obtain ⟨b, hPb, hb1, hb2⟩ := h p hmem
+      show v = f a
+      rw [← hl, ← hb2]
+      exact hk b a hPb ha (by rw [hb1, hkey])
+  | none =>
+    refine ⟨rfl, ?_⟩
+    intro p hp
+    rcases List.mem_cons.mp hp with rfl | hp'
+    · exact ⟨a, ha, rfl, rfl⟩
+    · exact h p hp'
+
+theorem Memo.transparent_on (P : α → Prop) (key : α → κ) (f : α → ν) (hk : KeySufficientOn P key f) (ops : List α) :
+    ∀ (c : Memo κ ν), Memo.SoundOn P key f c → (∀ a ∈ ops, P a) →
+      (Memo.runOps key f c ops).2 = ops.map f ∧ Memo.SoundOn P key f (Memo.runOps key f c ops).1 := by
+  induction ops with
+  | nil => intro c h _; exact ⟨rfl, h⟩
+  | cons a as ih =>
+    intro c h hP
+    obtain ⟨hv, hs⟩ := Memo.call_spec_on P key f hk c h a (hP a (List.mem_cons_self ..))
+    obtain ⟨h1, h2⟩ := ih (Memo.call key f c a).1 hs (fun x hx => hP x (List.mem_cons_of_mem _ hx))
+    simp only [Memo.runOps, List.map_cons]
+    exact ⟨by rw [hv, h1], h2⟩
+
 end
 end DadiVerif
